@@ -71,7 +71,7 @@ var profiles = map[string]Profile{
 	// C02: scarce funds, many spenders, every way of naming a source
 	"spend": {Name: "spend", MaxClients: 5, MaxOps: 3, MaxGens: 1, MaxLedgers: 1, WKind: [5]int{12, 3, 2, 2, 0},
 		Tpls:  []int{tplLit, tplVar, tplMeta, tplOrdered, tplMax, tplOverdraftBounded, tplAll, tplBalance, tplTwoSends, tplSplit, tplLit, tplVar, tplMeta, tplOrderedVars, tplOrderedVars, tplSaveVar, tplFallbackWorld, tplFallbackOverdraft, tplFeeVars, tplFeeVars, tplFeeVars},
-		IKPct: 0, RefPct: 0, DryPct: 3, CancelBlockedPct: 10, IKPool: 2, RefPool: 2, TargetPool: 3, FundMax: 12, AmountMax: 12},
+		IKPct: 0, RefPct: 0, DryPct: 3, CancelBlockedPct: 25, CancelPct: 4, IKPool: 2, RefPool: 2, TargetPool: 3, FundMax: 12, AmountMax: 12},
 	// C02: one script text, many bindings -- whatever a request does to the cached, shared program
 	// (or to anything else that outlives it) meets the next requests using the same text
 	"spend-shared": {Name: "spend-shared", MaxClients: 5, MaxOps: 4, MaxGens: 1, MaxLedgers: 2, WKind: [5]int{14, 1, 1, 1, 0},
